@@ -718,3 +718,192 @@ Proof.
   split; [intros j sp H; vm_compute in H; discriminate H|].
   split; [now left|]. split; [cbn; lia|]. now vm_compute.
 Qed.
+
+(* ------------------------------------------------------------------------------------------ *)
+(*  PHASE 4: Document::get_token_at_char_index (the binary search) inside the model; the domain   *)
+(* ------------------------------------------------------------------------------------------ *)
+Require Import C08TokenAt C08TokenAtProofs C08DomainProofs.
+
+(* core::slice::binary_search_by as modelled (Rust >= 1.82 loop): no index panic, no fuel exhaustion, for every
+   list and EVERY comparator (ordered or not) *)
+Theorem C08_binary_search_total :
+  forall (A : Type) (f : A -> comparison) (l : list A), exists r, binary_search_by f l = Ok r.
+Proof. exact @binary_search_by_total. Qed.
+Check C08_binary_search_total :
+  forall (A : Type) (f : A -> comparison) (l : list A), exists r, binary_search_by f l = Ok r.
+Print Assumptions C08_binary_search_total.
+
+(* its contract: on  Less* ++ [Equal] ++ Greater*  it answers Ok(index of the Equal element) *)
+Theorem C08_binary_search_finds :
+  forall (A : Type) (f : A -> comparison) (P Q : list A) (t : A),
+  Forall (fun x => f x = Lt) P -> f t = Eq -> Forall (fun x => f x = Gt) Q ->
+  binary_search_by f (P ++ t :: Q) = Ok (inl (length P)).
+Proof. exact @binary_search_by_finds. Qed.
+Check C08_binary_search_finds :
+  forall (A : Type) (f : A -> comparison) (P Q : list A) (t : A),
+  Forall (fun x => f x = Lt) P -> f t = Eq -> Forall (fun x => f x = Gt) Q ->
+  binary_search_by f (P ++ t :: Q) = Ok (inl (length P)).
+Print Assumptions C08_binary_search_finds.
+
+(* Document::get_token_at_char_index never panics, whatever the token vector *)
+Theorem C08_token_at_total :
+  forall (toks : list dtoken) (i : nat), exists r, token_at toks i = Ok r.
+Proof. exact token_at_total. Qed.
+Check C08_token_at_total :
+  forall (toks : list dtoken) (i : nat), exists r, token_at toks i = Ok r.
+Print Assumptions C08_token_at_total.
+
+(* ... and is sound on EVERY vector, sorted or not: the token answered is a token of the document that contains
+   the character, or an empty (or reversed) token starting at it - the comparator's second way to say Equal *)
+Theorem C08_token_at_sound :
+  forall (toks : list dtoken) (i : nat) (t : dtoken),
+  token_at toks i = Ok (Some t) ->
+  In t toks /\ (tok_contains t i \/ (sstart (tspan t) = i /\ send (tspan t) <= i)).
+Proof. exact token_at_sound. Qed.
+Check C08_token_at_sound :
+  forall (toks : list dtoken) (i : nat) (t : dtoken),
+  token_at toks i = Ok (Some t) ->
+  In t toks /\ (tok_contains t i \/ (sstart (tspan t) = i /\ send (tspan t) <= i)).
+Print Assumptions C08_token_at_sound.
+
+(* on sorted vectors of non-empty tokens (gaps allowed) the binary search IS the linear scan for the token
+   containing the character: found iff there is one *)
+Theorem C08_token_at_sorted_is_scan :
+  forall (toks : list dtoken) (i : nat), toks_sorted toks -> token_at toks i = Ok (token_at_spec toks i).
+Proof. exact token_at_sorted_is_scan. Qed.
+Check C08_token_at_sorted_is_scan :
+  forall (toks : list dtoken) (i : nat), toks_sorted toks -> token_at toks i = Ok (token_at_spec toks i).
+Print Assumptions C08_token_at_sorted_is_scan.
+
+(* in particular every Url token of such a vector is found at each of its characters *)
+Theorem C08_token_at_complete_sorted :
+  forall (toks : list dtoken) (i : nat) (t : dtoken),
+  toks_sorted toks -> In t toks -> tok_contains t i -> token_at toks i = Ok (Some t).
+Proof. exact token_at_complete_sorted. Qed.
+Check C08_token_at_complete_sorted :
+  forall (toks : list dtoken) (i : nat) (t : dtoken),
+  toks_sorted toks -> In t toks -> tok_contains t i -> token_at toks i = Ok (Some t).
+Print Assumptions C08_token_at_complete_sorted.
+
+(* REFUTED off sorted vectors.  Witness: the token vector harper's Markdown parser builds for "https://c.ex\n\nb"
+   - [Url [0,12); ParagraphBreak [0,0); Word [14,15)], the zero-width break of a paragraph sits BEHIND its tokens
+   with the span of its start -: at NO character of the Url does the lookup answer it (so no "Open URL" command
+   is offered), although the linear scan finds it.  Outside C08's property text (Open URL is not a lint's fix:
+   C08_url_lookup_only_appends); observation + proposed patch fixes/c08-token-at-char-index-linear.diff;
+   replayed on the implementation by the K stream of the correspondence (corpus/C08/tokens.json) *)
+Theorem C08_token_at_unsorted_refuted :
+  exists toks t, In t toks /\ turl t = true /\ ~ toks_sorted toks /\
+    forall i, tok_contains t i ->
+      token_at_spec toks i = Some t /\ token_at toks i <> Ok (Some t) /\ url_token_at_vec toks i = None.
+Proof. exact token_at_unsorted_refuted. Qed.
+Check C08_token_at_unsorted_refuted :
+  exists toks t, In t toks /\ turl t = true /\ ~ toks_sorted toks /\
+    forall i, tok_contains t i ->
+      token_at_spec toks i = Some t /\ token_at toks i <> Ok (Some t) /\ url_token_at_vec toks i = None.
+Print Assumptions C08_token_at_unsorted_refuted.
+
+(* DECISION on the Url-token lookup: it cannot change the lint part of a code-action answer - whatever the lookup
+   says, the answer is the answer without any lookup, or that plus ONE trailing Open-URL command *)
+Theorem C08_url_lookup_only_appends :
+  forall (doc : Type) (source : doc -> text) (url_at : doc -> nat -> option span) (d : doc)
+         (lints : list dlint) (r : range) (fs : bool) (acts : list action),
+  code_actions_core doc source url_at d lints r fs = Ok acts ->
+  exists acts0, code_actions_core doc source (fun _ _ => None) d lints r fs = Ok acts0 /\
+                (acts = acts0 \/ exists u, acts = acts0 ++ [AOpenUrl u]).
+Proof. exact code_actions_core_url_only_appends. Qed.
+Check C08_url_lookup_only_appends :
+  forall (doc : Type) (source : doc -> text) (url_at : doc -> nat -> option span) (d : doc)
+         (lints : list dlint) (r : range) (fs : bool) (acts : list action),
+  code_actions_core doc source url_at d lints r fs = Ok acts ->
+  exists acts0, code_actions_core doc source (fun _ _ => None) d lints r fs = Ok acts0 /\
+                (acts = acts0 \/ exists u, acts = acts0 ++ [AOpenUrl u]).
+Print Assumptions C08_url_lookup_only_appends.
+
+(* END TO END with the lookup AS CODED (binary search over the document's token vector, no order assumed): the
+   abstract premise on url_at of C08_history_code_action_at_published is replaced by "every token of the current
+   document lies inside its text" (C02's business); holds for sorted and unsorted (Markdown) vectors alike *)
+Theorem C08_history_code_action_at_published_tokens :
+  forall (doc : Type) (source : doc -> text) (cfg : Type) (fill : cfg -> cfg) (ctx_key : dlint -> doc -> N)
+         (tokens : doc -> list dtoken) (s0 : dstate doc cfg) (h : list (op doc cfg))
+         (l : dlint) (i : nat) (fs : bool),
+  let url_at := url_at_tokens doc tokens in
+  let d := doc_after doc cfg (ds_doc s0) h in
+  let t := source d in
+  let vis := visible_lints doc cfg fill ctx_key d (lint_after doc cfg (ds_lint s0) h)
+               (config_after doc cfg (ds_config s0) h) (ignored_after doc cfg ctx_key (ds_doc s0) (ds_ignored s0) h) in
+  text_fits_u32 t ->
+  Forall (fun x => span_in (length t) (lspan x)) vis ->
+  Forall (fun tk => span_in (length t) (tspan tk)) (tokens d) ->
+  In l vis -> sstart (lspan l) <= i < send (lspan l) ->
+  exists p acts,
+    index_to_position_u32 t i = Ok p /\ resolve t p = Some i /\
+    snd (step doc source cfg fill ctx_key url_at (fst (run doc source cfg fill ctx_key url_at s0 h))
+              (OCodeActions (p, p) fs)) = RActions (Ok acts) /\
+    In (AIgnore l) acts /\
+    forall s, In s (lsugs l) ->
+      exists r nt out, In (AEdit r nt (ltag l)) acts /\ span_to_range_u32 t (lspan l) = Ok r /\
+                       client_apply t r nt = Some out /\ apply s (lspan l) t = Ok out.
+Proof. exact history_code_action_at_published_tokens. Qed.
+Check C08_history_code_action_at_published_tokens :
+  forall (doc : Type) (source : doc -> text) (cfg : Type) (fill : cfg -> cfg) (ctx_key : dlint -> doc -> N)
+         (tokens : doc -> list dtoken) (s0 : dstate doc cfg) (h : list (op doc cfg))
+         (l : dlint) (i : nat) (fs : bool),
+  let url_at := url_at_tokens doc tokens in
+  let d := doc_after doc cfg (ds_doc s0) h in
+  let t := source d in
+  let vis := visible_lints doc cfg fill ctx_key d (lint_after doc cfg (ds_lint s0) h)
+               (config_after doc cfg (ds_config s0) h) (ignored_after doc cfg ctx_key (ds_doc s0) (ds_ignored s0) h) in
+  text_fits_u32 t ->
+  Forall (fun x => span_in (length t) (lspan x)) vis ->
+  Forall (fun tk => span_in (length t) (tspan tk)) (tokens d) ->
+  In l vis -> sstart (lspan l) <= i < send (lspan l) ->
+  exists p acts,
+    index_to_position_u32 t i = Ok p /\ resolve t p = Some i /\
+    snd (step doc source cfg fill ctx_key url_at (fst (run doc source cfg fill ctx_key url_at s0 h))
+              (OCodeActions (p, p) fs)) = RActions (Ok acts) /\
+    In (AIgnore l) acts /\
+    forall s, In s (lsugs l) ->
+      exists r nt out, In (AEdit r nt (ltag l)) acts /\ span_to_range_u32 t (lspan l) = Ok r /\
+                       client_apply t r nt = Some out /\ apply s (lspan l) t = Ok out.
+Print Assumptions C08_history_code_action_at_published_tokens.
+
+(* DOMAIN.  The property's quantifier names LF and CRLF line ends: a text with a lone CR is outside it.  The
+   theorems read with harper's line ends (resolve) hold for EVERY text; the _lsp theorems carry `no_lone_cr`,
+   and it cannot be dropped: "a\rb", index 2 (not between a CR and its LF) is published as (0,2), which an
+   LSP 3.17 client - for which the lone CR ends line 0 - cannot resolve *)
+Theorem C08_lone_cr_premise_needed :
+  exists t i p, i <= length t /\ ~ no_lone_cr t /\ ~ inside_crlf t i /\
+    index_to_position t i = Ok p /\ resolve t p = Some i /\ resolve_lsp t p = None.
+Proof. exact lone_cr_premise_needed. Qed.
+Check C08_lone_cr_premise_needed :
+  exists t i p, i <= length t /\ ~ no_lone_cr t /\ ~ inside_crlf t i /\
+    index_to_position t i = Ok p /\ resolve t p = Some i /\ resolve_lsp t p = None.
+Print Assumptions C08_lone_cr_premise_needed.
+
+(* ... likewise for edits: replacing [2,3) of "a\rb": right under harper's reading, no such range for that client *)
+Theorem C08_lone_cr_edit_needed :
+  exists t sp nt r, span_in (length t) sp /\ ~ no_lone_cr t /\
+    text_edit (ReplaceWith nt) sp t = Ok (r, nt) /\
+    client_apply t r nt = Some [97; 13; 99]%N /\ client_apply_lsp t r nt = None.
+Proof. exact lone_cr_edit_needed. Qed.
+Check C08_lone_cr_edit_needed :
+  exists t sp nt r, span_in (length t) sp /\ ~ no_lone_cr t /\
+    text_edit (ReplaceWith nt) sp t = Ok (r, nt) /\
+    client_apply t r nt = Some [97; 13; 99]%N /\ client_apply_lsp t r nt = None.
+Print Assumptions C08_lone_cr_edit_needed.
+
+(* non-vacuity: a sorted vector with a gap ("see https://c.ex now" without its second space token), the Url
+   found at its first and last character, nothing in the gap; the premises of the refutation's positive
+   counterpart (toks_sorted) exhibited *)
+Definition ex_toks : list dtoken :=
+  [mkdtoken (mkspan 0 3) false; mkdtoken (mkspan 3 4) false; mkdtoken (mkspan 4 16) true; mkdtoken (mkspan 17 20) false].
+Example C08_ex_token_at :
+  toks_sorted ex_toks /\
+  token_at ex_toks 4 = Ok (Some (mkdtoken (mkspan 4 16) true)) /\
+  url_token_at_vec ex_toks 15 = Some (mkspan 4 16) /\
+  token_at ex_toks 16 = Ok None /\ url_token_at_vec ex_toks 0 = None /\
+  binary_search_by (tok_cmp 16) ex_toks = Ok (inr 3) /\
+  Forall (fun tk => span_in 20 (tspan tk)) ex_toks.
+Proof.
+  split; [cbn; lia|]. do 5 (split; [now vm_compute|]). repeat constructor; cbn; lia.
+Qed.
